@@ -8,7 +8,7 @@
                          C comment line, without the words "&".  Not part of it: start line numbers, comment texts,
                          blank runs, tabs, line ends, the message block, how the words are spread over lines.
      read_lines_fix w f  the same for read_data carrying proposed repair C11-1 (continue_input is only updated on
-                         lines that are not comments, from the line's data: before '$', trailing blanks dropped).
+                         lines that are not comments: no '$' on the line and, trailing blanks dropped, " &" at its end).
      layout_step         one elementary re-layout (LinesProofs.data_step: DS_amp, DS_comment_after/_before/_text,
                          DS_dollar, DS_trail, DS_tab, DS_eol, DS_blank; LS_front: message block / title line end).
      layout_equiv w      reflexive, symmetric, transitive closure over files within the line limit w
@@ -31,9 +31,9 @@ Theorem C11_layout_refuted : exists w f f',
 Proof. exact layout_refuted. Qed.
 Print Assumptions C11_layout_refuted.
 
-(* ... for five reasons, each a single elementary step between two files within the limit (w = 128):
+(* ... for four reasons, each a single elementary step between two files within the limit (w = 128):
    blanks after the '&'; a comment line between the '&' line and its continuation; a comment line ending in " &";
-   a '$' comment ending in " &"; a '$' comment after the '&' *)
+   a '$' comment ending in " &" *)
 Theorem C11_refuted_blanks_after_amp : breaks wit1 wit1'.
 Proof. exact wit1_breaks. Qed.
 Print Assumptions C11_refuted_blanks_after_amp.
@@ -50,11 +50,7 @@ Theorem C11_refuted_dollar_ends_amp : breaks wit4 wit4'.
 Proof. exact wit4_breaks. Qed.
 Print Assumptions C11_refuted_dollar_ends_amp.
 
-Theorem C11_refuted_dollar_after_amp : breaks wit5 wit5'.
-Proof. exact wit5_breaks. Qed.
-Print Assumptions C11_refuted_dollar_after_amp.
-
-(* 3. ... except on files where none of the five occurs (amp_tidy, executable, Model/Lines.v): there the current
+(* 3. ... except on files where none of the four occurs (amp_tidy, executable, Model/Lines.v): there the current
       reader is the repaired one, and the closure theorem holds for it *)
 Theorem C11_tidy_is_repaired : forall w f, amp_tidy w f = true -> read_lines w f = read_lines_fix w f.
 Proof. exact tidy_reads_alike. Qed.
